@@ -89,7 +89,7 @@ class CUSUM(BaseChangeScore):
         self :
             Reference to self.
         """
-        X = as_2d_array(X)
+        X = as_2d_array(X, dtype=np.float64)
         self.sums_ = col_cumsum(X, init_zero=True)
         return self
 
